@@ -23,4 +23,7 @@ class Spec(runner.Spec):
     prop = "C04"
     streams = [uper_streams.Hostile(), DerHostile(), proto_streams.ProtoHostile()]
     assumptions = ASSUMPTIONS + ["protobuf reader: theorem Props.C17.proto_reader_total_fixed applies to the reader variant selected by the translator flag PROTO_READER_CHECKED (true since the fix: commits ff0cfec, 11b3503, b49d2ea)"]
+    # Props/Scope.lean: the faithful model of the Scope state machine (Uper/Scope.lean) refines the
+    # compositional mirror; the driver answers every request with both and reports `scope-mismatch`
+    extra_prop_files = ["Scope"]
     trusted_base = TRUSTED
